@@ -22,11 +22,17 @@ func (n *nodeB) add(i GInstr) { n.code = encodeVM(n.code, i) }
 
 var extPool = []string{"aa", "bb", "cc", "dd", "ll"}
 
+// isoTable: the ISO-639 codes the cases use (part 1, part 3 and the part 2 bibliographic variants) with their part 3 code
+func isoTable() map[string]string {
+	return map[string]string{"nor": "nor", "no": "nor", "eng": "eng", "en": "eng", "swa": "swa", "sw": "swa", "fra": "fra", "fr": "fra", "fre": "fra",
+		"deu": "deu", "de": "deu", "ger": "deu"}
+}
+
 func genApp(c *Ctx, ec *eCase) {
 	r := c.Rng
 	ec.nodes = map[string][]byte{}
 	ec.nolabel = map[string]bool{}
-	ec.langof = map[string]string{"nor": "nor", "no": "nor", "eng": "eng", "en": "eng", "swa": "swa", "fra": "fra", "fr": "fra"}
+	ec.langof = isoTable()
 	ec.wf = true
 	ec.flags = []int{0, 2, 8, 10}[r.Intn(4)]
 	userFlags := ec.flags
@@ -62,8 +68,10 @@ func genApp(c *Ctx, ec *eCase) {
 	// ---- root
 	root := &nodeB{}
 	rootTpl := "Root"
+	rootCatch := false
 	if r.Intn(4) == 0 && userFlags > 0 {
 		root.add(GInstr{Op: "CATCH", A: have[r.Intn(len(have))], N: flagIdx(), M: r.Intn(3) > 0})
+		rootCatch = true
 	}
 	if r.Intn(6) == 0 && userFlags > 0 {
 		root.add(GInstr{Op: "CROAK", N: flagIdx(), M: true})
@@ -142,7 +150,12 @@ func genApp(c *Ctx, ec *eCase) {
 			// flag setting handler, then a CATCH on the flag
 			n.add(GInstr{Op: "LOAD", A: "dd", N: 10})
 			if userFlags > 0 {
-				n.add(GInstr{Op: "CATCH", A: "sub", N: flagIdx(), M: true})
+				tgt := "sub"
+				if !rootCatch && r.Intn(3) == 0 {
+					// relative targets (the root has no CATCH of its own, so this cannot loop)
+					tgt = []string{"_", "^"}[r.Intn(2)]
+				}
+				n.add(GInstr{Op: "CATCH", A: tgt, N: flagIdx(), M: true})
 			}
 			back(n)
 			n.add(GInstr{Op: "HALT"})
@@ -164,9 +177,9 @@ func genApp(c *Ctx, ec *eCase) {
 			}
 			back(n)
 			n.add(GInstr{Op: "HALT"})
-			inc(n, ">", "11")
-			inc(n, "<", "22")
-			inc(n, "_", "0")
+			for _, k := range r.Perm(3) {
+				inc(n, []string{">", "<", "_"}[k], []string{"11", "22", "0"}[k])
+			}
 		case "fin":
 			// graceful end: code runs out right after HALT
 			if r.Intn(2) == 0 {
@@ -204,9 +217,9 @@ func genApp(c *Ctx, ec *eCase) {
 	}
 	back(sub)
 	sub.add(GInstr{Op: "HALT"})
-	inc(sub, "_", "0")
-	inc(sub, ">", "11")
-	inc(sub, "<", "22")
+	for _, k := range r.Perm(3) {
+		inc(sub, []string{"_", ">", "<"}[k], []string{"0", "11", "22"}[k])
+	}
 	addNode("sub", sub)
 	tpl("sub", "Sub")
 	// catch node
@@ -242,7 +255,11 @@ func genApp(c *Ctx, ec *eCase) {
 		set = append(set, 6) // TERMINATE
 	}
 	ec.exts = append(ec.exts, extRule{sym: "dd", callIdx: -1, content: "D", set: set, reset: reset})
-	ec.exts = append(ec.exts, extRule{sym: "ll", callIdx: -1, content: []string{"nor", "no", "zzzz", "", "fra"}[r.Intn(5)], set: []uint32{7}})
+	ec.exts = append(ec.exts, extRule{sym: "ll", callIdx: -1, content: []string{"nor", "no", "zzzz", "", "fra", "ger", "fre", "de"}[r.Intn(8)], set: []uint32{7}})
+	if r.Intn(2) == 0 {
+		ec.tpls = append(ec.tpls, tblEntry{strp("deu"), "root", "Wurzel"}, tblEntry{strp("fra"), "root", "Racine"})
+		ec.labels = append(ec.labels, tblEntry{strp("deu"), "back", "zurueck"})
+	}
 	_ = allSels
 }
 
@@ -269,6 +286,24 @@ func pendingSelectors(code []byte) []string {
 		b = rest
 	}
 	return r
+}
+
+// pendingWildcard: the pending bytecode has a wildcard INCMP.
+func pendingWildcard(code []byte) bool {
+	b := code
+	for len(b) >= 2 {
+		s, rest, err, p := decodeStep(b)
+		if err != nil || p != nil {
+			break
+		}
+		if strings.HasPrefix(s, "INCMP:") {
+			if f := strings.Split(s, ":"); string(unhx(f[2])) == "*" {
+				return true
+			}
+		}
+		b = rest
+	}
+	return false
 }
 
 // adaptiveInputs builds the input history by stepping the real engine: at each step it mostly picks a
@@ -302,6 +337,10 @@ func adaptiveInputs(c *Ctx, ec *eCase) {
 			if r.Intn(10) == 0 {
 				in = junkInputs[r.Intn(len(junkInputs))]
 			}
+		case tail < 0 && ec.roe && r.Intn(4) == 0:
+			in = []byte("")
+		case tail < 0 && pendingWildcard(st.Code) && r.Intn(3) == 0:
+			in = []byte([]string{"", "", "ok", "any text", "0"}[r.Intn(5)])
 		case tail >= 0 || len(sels) == 0 || r.Intn(6) == 0:
 			in = junkInputs[r.Intn(len(junkInputs))]
 		default:
@@ -333,6 +372,26 @@ func adaptiveInputs(c *Ctx, ec *eCase) {
 
 func strp(s string) *string { return &s }
 
+// serveOptions picks how the harness serves the case (see eCase.opts); the model is not told.
+func serveOptions(c *Ctx, ec *eCase) {
+	r := c.Rng
+	ec.opts = nil
+	if (r.Intn(5) == 0 || ec.preferAsm) && ec.asmOK() {
+		ec.setOpt("asm")
+	}
+	if r.Intn(8) == 0 {
+		ec.setOpt("pflush")
+	}
+	if ec.res != "" {
+		if r.Intn(2) == 0 {
+			ec.setOpt("shared")
+		}
+		if r.Intn(2) == 0 {
+			ec.setOpt("static")
+		}
+	}
+}
+
 func genEngineCases(c *Ctx) []string {
 	var ls []string
 	ls = append(ls, genScenarioCases(c, c.Pick(120, 2400))...)
@@ -343,7 +402,7 @@ func genEngineCases(c *Ctx) []string {
 		ec.out = []int{0, 0, 0, 160, 160, 90, 60, 40, 25, 12}[c.Rng.Intn(10)]
 		ec.cache = []int{0, 0, 0, 100, 30}[c.Rng.Intn(5)]
 		if c.Rng.Intn(8) == 0 {
-			ec.lang = []string{"nor", "eng", "xx"}[c.Rng.Intn(3)]
+			ec.lang = []string{"nor", "eng", "xx", "ger", "fr"}[c.Rng.Intn(5)]
 		}
 		if c.Rng.Intn(15) == 0 {
 			ec.sep = ") "
@@ -388,6 +447,7 @@ func genEngineCases(c *Ctx) []string {
 		if c.Rng.Intn(5) == 0 && ec.wf && ec.dbResourceOK() {
 			ec.res = []string{"db", "dbfs"}[c.Rng.Intn(2)]
 		}
+		serveOptions(c, ec)
 		// the same history in both modes
 		ec.mode = "long"
 		ls = append(ls, ec.String())
@@ -401,7 +461,7 @@ func genEngineCases(c *Ctx) []string {
 
 func newScenario(flags int) *eCase {
 	return &eCase{mode: "long", root: "root", wf: true, flags: flags, nodes: map[string][]byte{}, nolabel: map[string]bool{},
-		langof: map[string]string{"nor": "nor", "no": "nor", "eng": "eng", "en": "eng", "swa": "swa", "fra": "fra", "fr": "fra"}}
+		langof: isoTable()}
 }
 
 func (ec *eCase) node(name, tpl string, is ...GInstr) {
@@ -534,7 +594,7 @@ func scenCroak(c *Ctx) *eCase {
 func scenLang(c *Ctx) *eCase {
 	r := c.Rng
 	ec := newScenario(0)
-	code := []string{"nor", "no", "fra", "eng", "en", "zzzz", ""}[r.Intn(7)]
+	code := []string{"nor", "no", "fra", "eng", "en", "zzzz", "", "ger", "fre", "de", "deu"}[r.Intn(11)]
 	ec.node("root", "Welcome", GInstr{Op: "MOUT", A: "pick", B: "1"}, GInstr{Op: "MOUT", A: "show", B: "2"}, GInstr{Op: "HALT"},
 		GInstr{Op: "INCMP", A: "pick", B: "1"}, GInstr{Op: "INCMP", A: "show", B: "2"})
 	ec.node("pick", "Picked {{.greet}}", GInstr{Op: "LOAD", A: "setlang", N: 0}, GInstr{Op: "LOAD", A: "greet", N: 0}, GInstr{Op: "MAP", A: "greet"},
@@ -542,7 +602,7 @@ func scenLang(c *Ctx) *eCase {
 	ec.node("show", "Show {{.greet2}}", GInstr{Op: "LOAD", A: "greet2", N: 0}, GInstr{Op: "MAP", A: "greet2"},
 		GInstr{Op: "MOUT", A: "back", B: "0"}, GInstr{Op: "HALT"}, GInstr{Op: "INCMP", A: "_", B: "0"})
 	ec.catchNode()
-	for _, l := range []string{"nor", "fra", "eng"} {
+	for _, l := range []string{"nor", "fra", "eng", "deu"} {
 		ec.tpls = append(ec.tpls, tblEntry{strp(l), "pick", "[" + l + "] {{.greet}}"}, tblEntry{strp(l), "root", "[" + l + "] root"}, tblEntry{strp(l), "show", "[" + l + "] {{.greet2}}"})
 		ec.labels = append(ec.labels, tblEntry{strp(l), "back", "back-" + l})
 		ec.exts = append(ec.exts, extRule{sym: "greet", callIdx: -1, lang: strp(l), content: "hello-" + l}, extRule{sym: "greet2", callIdx: -1, lang: strp(l), content: "again-" + l})
@@ -552,7 +612,12 @@ func scenLang(c *Ctx) *eCase {
 	if r.Intn(4) == 0 {
 		ec.lang = []string{"nor", "eng", "fra"}[r.Intn(3)]
 	}
-	ec.inputs = ins("", "1", "0", "2", "0", "1")
+	if r.Intn(2) == 0 {
+		ec.inputs = ins("", "1", "0", "2", "0", "1")
+	} else {
+		// a language-dependent symbol is looked up before the language changes and again afterwards
+		ec.inputs = ins("", "2", "0", "1", "0", "2", "0", "1")
+	}
 	return ec
 }
 
@@ -614,16 +679,129 @@ func scenNewlineLast(c *Ctx) *eCase {
 	return ec
 }
 
-var scenarios = []func(*Ctx) *eCase{scenNewlineLast, scenDeep, scenUtf8, scenCroak, scenLang, scenReload, scenBlanks}
+// wildcard routing: a wildcard INCMP alone, after and before ordinary selectors; the replies include the empty string
+func scenWild(c *Ctx) *eCase {
+	r := c.Rng
+	ec := newScenario(0)
+	ec.node("root", "Root", GInstr{Op: "MOUT", A: "terms", B: "1"}, GInstr{Op: "MOUT", A: "signup", B: "2"}, GInstr{Op: "HALT"},
+		GInstr{Op: "INCMP", A: "terms", B: "1"}, GInstr{Op: "INCMP", A: "signup", B: "2"})
+	var post []GInstr
+	switch r.Intn(3) {
+	case 0:
+		post = []GInstr{{Op: "INCMP", A: "accepted", B: "*"}}
+	case 1:
+		post = []GInstr{{Op: "INCMP", A: "_", B: "0"}, {Op: "INCMP", A: "accepted", B: "*"}}
+	default:
+		post = []GInstr{{Op: "INCMP", A: "accepted", B: "*"}, {Op: "INCMP", A: "_", B: "0"}}
+	}
+	ec.node("terms", "Terms: send any reply to accept", append([]GInstr{{Op: "MOUT", A: "back", B: "0"}, {Op: "HALT"}}, post...)...)
+	ec.node("signup", "Your name?", GInstr{Op: "HALT"}, GInstr{Op: "INCMP", A: "accepted", B: "*"})
+	ec.node("accepted", "Thank you", GInstr{Op: "MOUT", A: "top", B: "9"}, GInstr{Op: "HALT"}, GInstr{Op: "INCMP", A: "^", B: "9"})
+	ec.catchNode()
+	ec.labels = append(ec.labels, tblEntry{nil, "top", "top"}, tblEntry{nil, "terms", "terms"}, tblEntry{nil, "signup", "sign up"})
+	reply := func() string { return []string{"", "", "ok", "0", "x", "yes please", "9", "*"}[r.Intn(8)] }
+	pick := func() string { return []string{"1", "2"}[r.Intn(2)] }
+	ec.inputs = ins("", pick(), reply(), "9", pick(), reply(), []string{"9", "0", ""}[r.Intn(3)], pick(), reply())
+	return ec
+}
+
+// CATCH with a relative target (_ ^) two levels down, on a flag a handler sets or leaves alone
+func scenCatchRel(c *Ctx) *eCase {
+	r := c.Rng
+	ec := newScenario(4)
+	fl := uint32(8 + r.Intn(4))
+	mode := r.Intn(4) > 0
+	tgt := []string{"_", "^", "_", "^", "other"}[r.Intn(5)]
+	ec.node("root", "Root", GInstr{Op: "MOUT", A: "mid", B: "1"}, GInstr{Op: "HALT"}, GInstr{Op: "INCMP", A: "mid", B: "1"})
+	ec.node("mid", "Mid", GInstr{Op: "MOUT", A: "leaf", B: "1"}, GInstr{Op: "MOUT", A: "back", B: "0"}, GInstr{Op: "HALT"}, GInstr{Op: "INCMP", A: "leaf", B: "1"}, GInstr{Op: "INCMP", A: "_", B: "0"})
+	leaf := []GInstr{{Op: "LOAD", A: "deny", N: 0}, {Op: "CATCH", A: tgt, N: fl, M: mode}, {Op: "MOUT", A: "back", B: "0"}, {Op: "HALT"}, {Op: "INCMP", A: "_", B: "0"}}
+	if r.Intn(3) == 0 {
+		// the CATCH sits in the input-handling part instead
+		leaf = []GInstr{{Op: "LOAD", A: "deny", N: 0}, {Op: "MOUT", A: "back", B: "0"}, {Op: "HALT"}, {Op: "INCMP", A: "_", B: "0"}, {Op: "CATCH", A: tgt, N: fl, M: mode}, {Op: "INCMP", A: "other", B: "2"}}
+	}
+	ec.node("leaf", "Leaf", leaf...)
+	ec.node("other", "Other", GInstr{Op: "MOUT", A: "back", B: "0"}, GInstr{Op: "HALT"}, GInstr{Op: "INCMP", A: "_", B: "0"})
+	ec.catchNode()
+	var set []uint32
+	if r.Intn(3) > 0 {
+		set = []uint32{fl}
+	}
+	ec.exts = append(ec.exts, extRule{sym: "deny", callIdx: -1, content: "d", set: set})
+	ec.inputs = ins("", "1", "1", []string{"0", "2", "x"}[r.Intn(3)], []string{"0", "1"}[r.Intn(2)], "1", "0")
+	return ec
+}
+
+// several graceful ends in one history: an end node that loads a value before its HALT, one that is a bare HALT,
+// one below a middle node; the session is restarted after each end
+func scenEnds(c *Ctx) *eCase {
+	r := c.Rng
+	ec := newScenario([]int{0, 4}[r.Intn(2)])
+	rootTail := []GInstr{{Op: "MOUT", A: "bye", B: "1"}, {Op: "MOUT", A: "quiet", B: "2"}, {Op: "MOUT", A: "deep", B: "3"}, {Op: "HALT"},
+		{Op: "INCMP", A: "bye", B: "1"}, {Op: "INCMP", A: "quiet", B: "2"}, {Op: "INCMP", A: "deep", B: "3"}}
+	if r.Intn(2) == 0 {
+		ec.node("root", "Welcome {{.greeting}}", append([]GInstr{{Op: "LOAD", A: "greeting", N: 0}, {Op: "MAP", A: "greeting"}}, rootTail...)...)
+	} else {
+		ec.node("root", "Lobby", rootTail...) // nothing is loaded between the restart and the next end
+	}
+	ec.node("bye", "goodbye ", GInstr{Op: "LOAD", A: "msg", N: 0}, GInstr{Op: "HALT"})
+	ec.node("quiet", "quiet end", GInstr{Op: "HALT"})
+	ec.node("deep", "Deep {{.note}}", GInstr{Op: "LOAD", A: "note", N: 20}, GInstr{Op: "MAP", A: "note"}, GInstr{Op: "MOUT", A: "bye", B: "1"}, GInstr{Op: "MOUT", A: "quiet", B: "2"}, GInstr{Op: "MOUT", A: "back", B: "0"},
+		GInstr{Op: "HALT"}, GInstr{Op: "INCMP", A: "bye", B: "1"}, GInstr{Op: "INCMP", A: "quiet", B: "2"}, GInstr{Op: "INCMP", A: "_", B: "0"})
+	ec.catchNode()
+	for i := 0; i < 6; i++ {
+		ec.exts = append(ec.exts, extRule{sym: "greeting", callIdx: i, content: fmt.Sprintf("visitor#%d", i)})
+	}
+	ec.exts = append(ec.exts, extRule{sym: "greeting", callIdx: -1, content: "visitor"}, extRule{sym: "msg", callIdx: -1, content: []string{"see you", "see you\n", ""}[r.Intn(3)]},
+		extRule{sym: "note", callIdx: -1, content: "n"})
+	end := func() []string {
+		e := []string{"1", "2"}[r.Intn(2)]
+		if r.Intn(3) == 0 {
+			return []string{"3", e}
+		}
+		return []string{e}
+	}
+	in := []string{""}
+	for k := 0; k < 2+r.Intn(3); k++ {
+		in = append(in, end()...)
+		in = append(in, []string{"", "", "x", "1"}[r.Intn(4)])
+	}
+	ec.inputs = ins(in...)
+	return ec
+}
+
+// declared sizes at the width boundaries of the integer encoding, values just below, at and above the limit
+func scenSizes(c *Ctx) *eCase {
+	r := c.Rng
+	ec := newScenario(0)
+	// the boundary values are walked in turn, so that even a small batch meets each of them
+	tick := c.Counts["gen:scenSizes"]
+	c.Count("gen:scenSizes")
+	n := []int{256, 255, 257, 1, 65535, 300, 512, 2, 254, 511, 1000, 65280, 4096}[tick%13]
+	l := n + []int{1, 0, -1, 44, 1, 0}[(tick/13+tick)%6]
+	if l < 0 {
+		l = 0
+	}
+	ec.node("root", "Root", GInstr{Op: "MOUT", A: "big", B: "1"}, GInstr{Op: "HALT"}, GInstr{Op: "INCMP", A: "big", B: "1"})
+	ec.node("big", "Big {{.blob}}", GInstr{Op: "LOAD", A: "blob", N: uint32(n)}, GInstr{Op: "MAP", A: "blob"}, GInstr{Op: "MOUT", A: "back", B: "0"}, GInstr{Op: "MOUT", A: "again", B: "5"}, GInstr{Op: "HALT"},
+		GInstr{Op: "INCMP", A: "_", B: "0"}, GInstr{Op: "RELOAD", A: "blob"}, GInstr{Op: "MOVE", A: "."})
+	ec.catchNode()
+	ec.exts = append(ec.exts, extRule{sym: "blob", callIdx: 1, content: strings.Repeat("y", n+1)}, extRule{sym: "blob", callIdx: -1, content: strings.Repeat("x", l)})
+	ec.inputs = ins("", "1", "5", "0", "1")
+	ec.preferAsm = tick%2 == 0 || r.Intn(2) == 0
+	return ec
+}
+
+var scenarios = []func(*Ctx) *eCase{scenNewlineLast, scenDeep, scenUtf8, scenCroak, scenLang, scenReload, scenBlanks, scenWild, scenCatchRel, scenEnds, scenSizes}
 
 func genScenarioCases(c *Ctx, n int) []string {
 	var ls []string
 	for i := 0; i < n; i++ {
 		ec := scenarios[i%len(scenarios)](c)
 		// every third scenario is served through the library's DbResource (mem or fs store) instead of the recording one
-		if i%3 == 2 && ec.dbResourceOK() {
+		if (i/len(scenarios)+i%len(scenarios))%3 == 2 && ec.dbResourceOK() {
 			ec.res = []string{"db", "dbfs"}[c.Rng.Intn(2)]
 		}
+		serveOptions(c, ec)
 		ec.mode = "long"
 		ls = append(ls, ec.String())
 		ec.mode = "pers"
